@@ -543,7 +543,8 @@ func reifyMergeValue(
 		if err := tryValidate(old); err != nil {
 			return reflect.Value{}, raiseValidation(val.Context(), val.meta(), "", err)
 		}
-		return old, nil
+		// (a pointer held by an interface stays a pointer)
+		return pointerize(t, old.Type(), old), nil
 	}
 
 	switch baseType.Kind() {
